@@ -48,6 +48,9 @@ type Action struct {
 	N  int // connection
 	R  int // answer mode
 	Ok bool
+	// Late (QFinish with Ok): the caller's context ends just before the connection hands the reply up. For the
+	// model the same step as a plain QFinish: the reply is returned.
+	Late bool
 }
 
 func (a Action) Coq() string {
@@ -110,6 +113,7 @@ type world struct {
 	atts    []*Att
 	landed  chan int      // call whose exchange is now blocked on a connection
 	fin     map[int]chan bool
+	late    map[int]bool
 	created map[int64]map[int]bool // connections created during the current pass of that goroutine
 	issued  int                    // reservations handed out by dummies
 	used    int                    // ... on which ExchangeReserved or WithdrawReserved was called
@@ -184,6 +188,19 @@ func (x *dex) ExchangeReserved(ctx context.Context, q []byte) (*[]byte, error) {
 		copy(*bp, b)
 		return bp, nil
 	case <-ctx.Done():
+		w.mu.Lock()
+		late := w.late[c]
+		w.mu.Unlock()
+		if late {
+			// the reply was handed over before the context ended (the connection's exchange prefers it)
+			<-ch
+			r := new(dns.Msg)
+			r.SetReply(m)
+			b, _ := r.Pack()
+			bp := pool.GetBuf(len(b))
+			copy(*bp, b)
+			return bp, nil
+		}
 		return nil, ctx.Err()
 	}
 }
@@ -244,7 +261,7 @@ func Run(next func(v *View) *Action) ([]Action, []Obs) {
 	mu.Lock()
 	defer mu.Unlock()
 	Wedged = false
-	w := &world{mode: map[int]int{}, cur: map[int64]*Att{}, landed: make(chan int, 64), fin: map[int]chan bool{}, created: map[int64]map[int]bool{}}
+	w := &world{mode: map[int]int{}, cur: map[int64]*Att{}, landed: make(chan int, 64), fin: map[int]chan bool{}, late: map[int]bool{}, created: map[int64]map[int]bool{}}
 	calls := map[int64]int{} // goroutine -> call
 	var cmu sync.Mutex
 	rets := make(chan Ret, 64)
@@ -392,8 +409,14 @@ func Run(next func(v *View) *Action) ([]Action, []Obs) {
 		case QFinish:
 			w.mu.Lock()
 			ch := w.fin[a.C]
+			if a.Late {
+				w.late[a.C] = true
+			}
 			w.mu.Unlock()
 			delete(blocked, a.C)
+			if a.Late {
+				cancels[a.C]() // the caller's context ends; the connection hands the reply up all the same
+			}
 			ch <- a.Ok
 			expect[a.C] = true
 		case QCancel:
@@ -480,6 +503,7 @@ func Catalogue() map[string][]Action {
 		return append(as, st(n), st(n+1), set(3, RAdmit), st(n+2))
 	}
 	return map[string][]Action{
+		"reply-just-before-the-context-ends": {st(0), Action{K: QFinish, C: 0, Ok: true, Late: true}, st(1), st(2), Action{K: QFinish, C: 2, Ok: true, Late: true}, fin(1, true)},
 		"reuse-while-admitting":       {st(0), st(1), st(2), fin(0, true), fin(1, true), fin(2, true), st(3)},
 		"full-opens-another":          {st(0), set(0, RFull), st(1), st(2), set(0, RAdmit), set(1, RFull), st(3), fin(0, true)},
 		"closed-is-dropped":           {st(0), st(1), set(0, RClosed), st(2), fin(2, true), st(3), set(1, RClosed), st(4)},
@@ -511,6 +535,7 @@ func RandomNext(r *hx.RNG, maxSteps int) func(v *View) *Action {
 				a = Action{K: QSet, N: r.Intn(v.NConns + 1), R: hx.Pick(r, []int{RAdmit, RAdmit, RFull, RFull, RClosed})}
 			case k < 88:
 				a = Action{K: QFinish, C: r.Intn(nextCall + 1), Ok: r.Chance(1, 2)}
+				a.Late = a.Ok && r.Chance(1, 4)
 			case k < 97:
 				a = Action{K: QCancel, C: r.Intn(nextCall + 1)}
 			default:
